@@ -600,6 +600,26 @@ func checkFractalChannels(c *Ctx, fns []*ssa.Function, li *lockInfo) {
 					sameFn = true
 				}
 			}
+			if !sameFn && gNewFuncs[fn] && fn.Parent() == nil && len(gCallSitesOf[fn]) > 0 {
+				// the loop moved into a phase helper, called synchronously only by the function whose defer closes
+				// the channel: the close still runs after the helper (and with it every send) has returned
+				all := true
+				for _, site := range gCallSitesOf[fn] {
+					callCl, isCall := site.(*ssa.Call)
+					inCloser := false
+					if isCall {
+						for _, s := range cl {
+							if s.fn == callCl.Parent() {
+								inCloser = true
+							}
+						}
+					}
+					if !inCloser {
+						all = false
+					}
+				}
+				sameFn = all
+			}
 			switch {
 			case recoverGuarded(fn):
 				c.OK(rule, key, c.Pos(in.Pos()), "recover-guarded send")
@@ -997,6 +1017,24 @@ func checkFrameOwnership(c *Ctx) {
 	key := "receiveRoutine:frame-buffer-not-reused"
 	n := 0
 	bad := ""
+	// the receive loop may have been moved into a phase helper the reference tree does not have (a shell
+	// that keeps the defers and a loop function): the rule follows the send
+	allInstrsNew(f, func(in ssa.Instruction) {
+		var ch ssa.Value
+		switch x := in.(type) {
+		case *ssa.Send:
+			ch = x.Chan
+		case *ssa.Select:
+			for _, st := range x.States {
+				if st.Dir == types.SendOnly {
+					ch = st.Chan
+				}
+			}
+		}
+		if ch != nil && in.Parent() != f && strings.HasSuffix(chanOrigin(in.Parent(), ch), ".recvCh") {
+			f = hostFn(f, in)
+		}
+	})
 	check := func(in ssa.Instruction, ch, val ssa.Value) {
 		if !strings.HasSuffix(chanOrigin(f, ch), ".recvCh") {
 			return
